@@ -538,3 +538,114 @@ Proof.
   - subst o. apply no_server_iff_empty.
   - intros i Hok Hi. subst o. eapply choice_in_list; eassumption.
 Qed.
+
+(** ** which list: the one current at the goroutine's most recent load *)
+Definition run_state (q : quirks) (p : policy) (st : cstate) (es : list cev) : cstate := snd (crun q p st es).
+
+Lemma run_state_cons q p st e t : run_state q p st (e :: t) = run_state q p (fst (cstep q p st e)) t.
+Proof.
+  unfold run_state. cbn [crun]. destruct (cstep q p st e) as [st' o1]. cbn [fst].
+  destruct (crun q p st' t) as [os fin]. reflexivity.
+Qed.
+
+Lemma bump_length b : forall l, List.length (bump b l) = List.length l.
+Proof. induction b as [|b IH]; intros [|[s c] t]; cbn [bump List.length]; try reflexivity. rewrite IH. reflexivity. Qed.
+
+Lemma cstep_inv q p st e :
+  S (curlb st) = List.length (lbs st) ->
+  S (curlb (fst (cstep q p st e))) = List.length (lbs (fst (cstep q p st e))).
+Proof.
+  intro H. destruct e as [l|g|g d k]; cbn [cstep].
+  - cbn [fst lbs curlb]. rewrite app_length. cbn [List.length]. lia.
+  - exact H.
+  - destruct (reg_get g (regs st)) as [b|]; [|exact H].
+    destruct (nth_error (lbs st) b) as [[l c]|]; [|exact H].
+    cbn [fst lbs curlb]. rewrite bump_length. exact H.
+Qed.
+
+Lemma run_state_inv q p : forall es st,
+  S (curlb st) = List.length (lbs st) ->
+  S (curlb (run_state q p st es)) = List.length (lbs (run_state q p st es)).
+Proof.
+  induction es as [|e t IH]; intros st H; [exact H|].
+  rewrite run_state_cons. apply IH. apply cstep_inv. exact H.
+Qed.
+
+Lemma run_state_lists q p : forall es st,
+  map fst (lbs (run_state q p st es)) = map fst (lbs st) ++ replaced es.
+Proof.
+  induction es as [|e t IH]; intro st.
+  - cbn. rewrite app_nil_r. reflexivity.
+  - rewrite (replaced_cons e t), app_assoc, run_state_cons, IH, cstep_lists. reflexivity.
+Qed.
+
+Lemma curlb_cinit q p l0 es : curlb (run_state q p (cinit l0) es) = List.length (replaced es).
+Proof.
+  pose proof (run_state_inv q p es (cinit l0) eq_refl) as H1.
+  pose proof (f_equal (@List.length _) (run_state_lists q p es (cinit l0))) as H2.
+  rewrite map_length, app_length in H2. cbn [cinit lbs map List.length] in H2. lia.
+Qed.
+
+Lemma cstep_regs q p st e g :
+  reg_get g (regs (fst (cstep q p st e))) =
+  match e with
+  | CLoad g' => if Nat.eqb g g' then Some (curlb st) else reg_get g (regs st)
+  | _ => reg_get g (regs st)
+  end.
+Proof.
+  destruct e as [l|g'|g' d k]; cbn [cstep]; try reflexivity.
+  destruct (reg_get g' (regs st)) as [b|]; [|reflexivity].
+  destruct (nth_error (lbs st) b) as [[l c]|]; reflexivity.
+Qed.
+
+Lemma crun_loaded q p : forall es st os fin j b o g d k,
+  crun q p st es = (os, fin) ->
+  nth_error os j = Some (Some (b, o)) ->
+  nth_error es j = Some (CChoose g d k) ->
+  (exists m, (m < j)%nat /\ nth_error es m = Some (CLoad g) /\
+             (forall m', (m < m' < j)%nat -> nth_error es m' <> Some (CLoad g)) /\
+             b = curlb (run_state q p st (firstn m es))) \/
+  ((forall m', (m' < j)%nat -> nth_error es m' <> Some (CLoad g)) /\ reg_get g (regs st) = Some b).
+Proof.
+  induction es as [|e t IH]; intros st os fin j b o g d k H Hj He.
+  - destruct j; discriminate.
+  - cbn [crun] in H. destruct (cstep q p st e) as [st' o1] eqn:Es.
+    destruct (crun q p st' t) as [os' fin'] eqn:Er. inversion H; subst os fin; clear H.
+    destruct j as [|j].
+    + right. cbn [nth_error] in Hj, He. inversion He; subst e. inversion Hj; subst o1. clear Hj He.
+      split; [intros m' Hm'; lia|].
+      cbn [cstep] in Es. destruct (reg_get g (regs st)) as [b'|] eqn:Eg; [|inversion Es].
+      destruct (nth_error (lbs st) b') as [[l c]|]; inversion Es; subst. reflexivity.
+    + cbn [nth_error] in Hj, He.
+      destruct (IH st' os' fin' j b o g d k Er Hj He) as [(m & Hm & Hl & Hno & Hb)|(Hno & Hr)].
+      * left. exists (S m). split; [lia|]. split; [exact Hl|]. split.
+        -- intros [|m'] Hm'; [lia|]. cbn [nth_error]. apply Hno. lia.
+        -- cbn [firstn]. rewrite run_state_cons, Es. exact Hb.
+      * pose proof (cstep_regs q p st e g) as HR. rewrite Es in HR. cbn [fst] in HR. rewrite Hr in HR.
+        destruct e as [l|g'|g' d' k'].
+        -- right. split; [|congruence]. intros [|m'] Hm'; [cbn; discriminate|]. cbn [nth_error]. apply Hno. lia.
+        -- destruct (Nat.eqb g g') eqn:Eg.
+           ++ apply Nat.eqb_eq in Eg. subst g'. left. exists 0%nat. split; [lia|]. split; [reflexivity|]. split.
+              ** intros [|m'] Hm'; [lia|]. cbn [nth_error]. apply Hno. lia.
+              ** cbn [firstn]. unfold run_state. cbn. congruence.
+           ++ right. split; [|congruence]. intros [|m'] Hm'.
+              ** cbn [nth_error]. intro HH. inversion HH. subst. rewrite Nat.eqb_refl in Eg. discriminate.
+              ** cbn [nth_error]. apply Hno. lia.
+        -- right. split; [|congruence]. intros [|m'] Hm'; [cbn; discriminate|]. cbn [nth_error]. apply Hno. lia.
+Qed.
+
+Lemma replace_choice_current_at_load q p l0 es os fin j b o :
+  crun q p (cinit l0) es = (os, fin) ->
+  nth_error os j = Some (Some (b, o)) ->
+  exists g d k m,
+    nth_error es j = Some (CChoose g d k) /\
+    (m < j)%nat /\ nth_error es m = Some (CLoad g) /\
+    (forall m', (m < m' < j)%nat -> nth_error es m' <> Some (CLoad g)) /\
+    b = List.length (replaced (firstn m es)).
+Proof.
+  intros H Hj.
+  destruct (crun_choice q p es (cinit l0) os fin H j b o Hj) as (l & g & c & d & k & H1 & _ & _).
+  destruct (crun_loaded q p es (cinit l0) os fin j b o g d k H Hj H1) as [(m & Hm & Hl & Hno & Hb)|(_ & Hr)].
+  - exists g, d, k, m. repeat split; try assumption. rewrite Hb. apply curlb_cinit.
+  - cbn in Hr. discriminate.
+Qed.
